@@ -319,7 +319,7 @@ def foreign_variants(spec: dict) -> list[tuple[str, dict]]:
         for lab, dx in (("filter_kwargs", 2), ("filter_kwargs-", -1)):     # same filter NAMES, other arguments (stricter / laxer)
             f0 = dict(spec["applied_filters"][0]); f0["kwargs"] = {k: (max(0, x + dx) if isinstance(x, int) else x) for k, x in f0["kwargs"].items()}
             v(lab, applied_filters=[f0] + list(spec["applied_filters"][1:]))
-    cs = _colliding_seed(spec)
+    cs = _colliding_seed(spec) if spec.get("n_mazes", 99) <= 5 else None      # (a few seconds of search each: small configs only)
     if cs is not None:
         v("seed_same_fname", seed=cs)      # another seed whose 5-digit hash suffix, hence cache file NAME, is identical: the name proves nothing
     v("n_mazes_only", n_mazes=spec["n_mazes"] + 2)
